@@ -250,13 +250,13 @@ def concurrent_part(ctx, race=True):
     without it (sync.Pool and the scheduler behave differently under -race) - plus the UDP hammer.  Returns the output of
     the race-detector run (the caller turns race reports into violations)."""
     exhaustive(ctx)
-    n = 48 if ctx.quick else 320
+    n = 32 if ctx.quick else 320
     behs = gen(ctx, n, ctx.seed + 23, MaxOps=50)
     if len(behs) < n // 2:
         raise vlib.Inconclusive("MetricsCount generation produced only %d behaviours" % len(behs))
     res, out = _conc(ctx, behs, "mcX", "TCP+UDP reports, 8 concurrent callers + 3 scrapers, -race", rep=20, scrapers=3, group=8,
                      race=race)
-    _conc(ctx, behs, "mcXn", "TCP+UDP reports, 8 concurrent callers + 3 scrapers", rep=200, scrapers=3, group=8)
+    _conc(ctx, behs, "mcXn", "TCP+UDP reports, 8 concurrent callers + 3 scrapers", rep=100, scrapers=3, group=8)
     hammer = [project(b, UDP_ACTS) for b in behs]
     hammer = [b for b in hammer if sum(1 for s in b if s["a"] in ("PktC", "PktT")) >= 3][:16]
     if hammer:
